@@ -133,49 +133,52 @@ Qed.
 
 (* ---- pathname resolution ------------------------------------------------------------ *)
 
-Lemma walk_app ino st a b :
-  walk ino st (a ++ b) =
-  match walk ino st a with WOk st' => walk ino st' b | r => r end.
+Lemma walk_app u ino st a b :
+  walk u ino st (a ++ b) =
+  match walk u ino st a with WOk st' => walk u ino st' b | r => r end.
 Proof.
   revert st; induction a as [|c a IH]; intros st; cbn; auto.
   destruct (nth_error ino (top st)) as [[| perm ents |]|]; auto.
+  destruct (u && negb (may_x perm)); auto.
   destruct (is_dot c); auto.
   destruct (is_dotdot c). { destruct st; auto. }
   destruct (lookup ents c); auto.
 Qed.
 
 (* the function computes exactly the declarative relation *)
-Lemma walk_resolves ino : forall cs st st', walk ino st cs = WOk st' -> Resolves ino st cs st'.
+Lemma walk_resolves u ino : forall cs st st', walk u ino st cs = WOk st' -> Resolves u ino st cs st'.
 Proof.
   induction cs as [|c cs IH]; intros st st' H; cbn in H.
   - inversion H; constructor.
   - destruct (nth_error ino (top st)) as [[| perm ents |]|] eqn:En; try discriminate.
+    destruct (u && negb (may_x perm)) eqn:Ex; try discriminate.
     destruct (is_dot c) eqn:Ed. { eapply RsDot; eauto. }
     destruct (is_dotdot c) eqn:Edd.
     + destruct st as [|e st]; try discriminate. eapply RsUp; eauto.
     + destruct (lookup ents c) eqn:El; try discriminate. eapply RsName; eauto.
 Qed.
 
-Lemma resolves_walk ino : forall st cs st', Resolves ino st cs st' -> walk ino st cs = WOk st'.
+Lemma resolves_walk u ino : forall st cs st', Resolves u ino st cs st' -> walk u ino st cs = WOk st'.
 Proof.
-  induction 1 as [st | st c cs st' perm ents En Ed _ IH | e st c cs st' perm ents En Ed Edd _ IH
-                 | st c cs st' perm ents i En Ed Edd El _ IH]; cbn [walk]; auto.
-  - rewrite En, Ed. exact IH.
-  - rewrite En, Ed, Edd. exact IH.
-  - rewrite En, Ed, Edd, El. exact IH.
+  induction 1 as [st | st c cs st' perm ents En Ex Ed _ IH | e st c cs st' perm ents En Ex Ed Edd _ IH
+                 | st c cs st' perm ents i En Ex Ed Edd El _ IH]; cbn [walk]; auto.
+  - rewrite En, Ex, Ed. exact IH.
+  - rewrite En, Ex, Ed, Edd. exact IH.
+  - rewrite En, Ex, Ed, Edd, El. exact IH.
 Qed.
 
-Lemma walk_iff_resolves_l ino st cs st' : walk ino st cs = WOk st' <-> Resolves ino st cs st'.
+Lemma walk_iff_resolves_l u ino st cs st' : walk u ino st cs = WOk st' <-> Resolves u ino st cs st'.
 Proof. split; [apply walk_resolves | apply resolves_walk]. Qed.
 
 (* one name at the end of a successful walk *)
-Lemma walk_snoc_name ino st0 acc a st :
+Lemma walk_snoc_name u ino st0 acc a st :
   is_dot a = false -> is_dotdot a = false ->
-  walk ino st0 (acc ++ [a]) = WOk st ->
-  exists i st1, st = (a, i) :: st1 /\ walk ino st0 acc = WOk st1.
+  walk u ino st0 (acc ++ [a]) = WOk st ->
+  exists i st1, st = (a, i) :: st1 /\ walk u ino st0 acc = WOk st1.
 Proof.
-  intros Hd Hdd. rewrite walk_app. destruct (walk ino st0 acc) as [st1| |]; try discriminate.
+  intros Hd Hdd. rewrite walk_app. destruct (walk u ino st0 acc) as [st1| |]; try discriminate.
   cbn. destruct (nth_error ino (top st1)) as [[| perm ents |]|]; try discriminate.
+  destruct (u && negb (may_x perm)); try discriminate.
   rewrite Hd, Hdd. destruct (lookup ents a) as [i|]; try discriminate.
   intros H; inversion H; eauto.
 Qed.
@@ -187,40 +190,41 @@ Qed.
 
 (* Lexical normalisation does not change where a path leads, PROVIDED the
    original path resolves (every `x/..` really passes through a directory x). *)
-Lemma norm_walk ino st0 : forall cs acc st st',
+Lemma norm_walk u ino st0 : forall cs acc st st',
   Forall (fun a => is_dot a = false) acc ->
-  walk ino st0 (rev acc) = WOk st ->
-  walk ino st cs = WOk st' ->
-  walk ino st0 (norm acc cs) = WOk st'.
+  walk u ino st0 (rev acc) = WOk st ->
+  walk u ino st cs = WOk st' ->
+  walk u ino st0 (norm acc cs) = WOk st'.
 Proof.
   induction cs as [|c cs IH]; intros acc st st' Hnd Hacc Hcs; cbn in *.
   - inversion Hcs; subst; auto.
   - destruct (nth_error ino (top st)) as [[| perm ents |]|] eqn:En; try discriminate.
+    destruct (u && negb (may_x perm)) eqn:Ex; try discriminate.
     destruct (is_dot c) eqn:Ed. { eapply IH; eauto. }
     destruct (is_dotdot c) eqn:Edd.
     + destruct st as [|e st1]; try discriminate.
       destruct acc as [|a acc'].
       * cbn in Hacc. inversion Hacc; subst st0.
         eapply IH; [constructor; auto | | exact Hcs]. cbn [rev app walk].
-        cbn [top] in En. cbn [top]. rewrite En, Ed, Edd. reflexivity.
+        cbn [top] in En. cbn [top]. rewrite En, Ex, Ed, Edd. reflexivity.
       * inversion Hnd as [|? ? Hda Hnd']; subst.
         destruct (is_dotdot a) eqn:Ea.
         -- eapply IH; [constructor; auto | | exact Hcs].
            change (rev (c :: a :: acc')) with (rev (a :: acc') ++ [c]).
            rewrite walk_app, Hacc. cbn [walk top]. cbn [top] in En.
-           rewrite En, Ed, Edd. reflexivity.
+           rewrite En, Ex, Ed, Edd. reflexivity.
         -- cbn [rev] in Hacc.
-           destruct (walk_snoc_name _ _ _ _ _ Hda Ea Hacc) as (i & st2 & Heq & H2).
+           destruct (walk_snoc_name _ _ _ _ _ _ Hda Ea Hacc) as (i & st2 & Heq & H2).
            inversion Heq; subst. eapply IH; eauto.
     + destruct (lookup ents c) as [i|] eqn:El; try discriminate.
       eapply IH; [constructor; auto | | exact Hcs].
       change (rev (c :: acc)) with (rev acc ++ [c]).
-      rewrite walk_app, Hacc. cbn [walk]. rewrite En, Ed, Edd, El. reflexivity.
+      rewrite walk_app, Hacc. cbn [walk]. rewrite En, Ex, Ed, Edd, El. reflexivity.
 Qed.
 
-Lemma norm_sound_l ino st cs st' :
-  walk ino st cs = WOk st' -> walk ino st (norm [] cs) = WOk st'.
-Proof. intros H. eapply (norm_walk ino st cs [] st st'); auto. Qed.
+Lemma norm_sound_l u ino st cs st' :
+  walk u ino st cs = WOk st' -> walk u ino st (norm [] cs) = WOk st'.
+Proof. intros H. eapply (norm_walk u ino st cs [] st st'); auto. Qed.
 
 (* the normal form contains no `.` component *)
 Lemma norm_no_dot_aux : forall cs acc,
@@ -463,7 +467,8 @@ Proof.
     try apply k_open_quiet;
     try (unfold k_close, k_dup, k_dup2, k_read, k_write, k_lseek, k_fstat, k_stat, k_umask,
            k_chdir, k_getcwd, k_pipe, k_readdir, k_getfd, k_setfd, k_access,
-           k_sigaction, k_getsigaction, k_raise, k_caught, k_sigmask, k_setrlimit, k_setpgid0;
+           k_sigaction, k_getsigaction, k_raise, k_caught, k_sigmask, k_setrlimit, k_setpgid0,
+           k_droppriv, k_chmod;
          quiet_tac; fail).
 Qed.
 
@@ -560,7 +565,7 @@ Lemma subshell_isolation_l s ops :
   map strip (k_susp (fst (run s (OFork :: ops ++ [OExit])))) = map strip (k_susp s).
 Proof.
   intros Hnone Hn. cbn [run]. unfold step. rewrite Hnone. cbn [step_live]. unfold k_fork.
-  set (s1 := mkK (k_ino s) (k_ofd s) _ (k_cur s :: k_susp s) None).
+  set (s1 := mkK (k_ino s) (k_ofd s) _ (k_cur s :: k_susp s) None (k_unpriv s)).
   rewrite run_app.
   destruct (run s1 ops) as [s2 r2] eqn:E2.
   destruct (run_nested ops 0 s1 Hn) as (A & B); try (unfold s1, sk; cbn; lia).
@@ -659,15 +664,16 @@ Lemma comps_split (cs : list str) last rinit : rev cs = last :: rinit -> cs = re
 Proof. intros H. rewrite <- (rev_involutive cs), H. reflexivity. Qed.
 
 (* how [resolve] sees a path whose last component is a plain name *)
-Lemma resolve_last ino cwd p last rinit :
+Lemma resolve_last u ino cwd p last rinit :
   nonempty p = true ->
   rev (comps p) = last :: rinit ->
   is_dot last = false -> is_dotdot last = false -> trailing_slash p = false ->
-  resolve ino cwd p =
-  match walk ino (start cwd p) (rev rinit) with
+  resolve u ino cwd p =
+  match walk u ino (start cwd p) (rev rinit) with
   | WOk st =>
       match nth_error ino (top st) with
-      | Some (IDir _ ents) =>
+      | Some (IDir perm ents) =>
+          if u && negb (may_x perm) then WErr EACCES else
           match lookup ents last with
           | Some i => WOk ((last, i) :: st)
           | None => WErr ENOENT
@@ -680,8 +686,9 @@ Lemma resolve_last ino cwd p last rinit :
 Proof.
   intros Hne Hr Hd Hdd Hts. unfold resolve. rewrite Hne. cbn [negb].
   rewrite (comps_split _ _ _ Hr), walk_app.
-  destruct (walk ino (start cwd p) (rev rinit)) as [st| |]; auto.
+  destruct (walk u ino (start cwd p) (rev rinit)) as [st| |]; auto.
   cbn [walk]. destruct (nth_error ino (top st)) as [[| perm ents |]|]; auto.
+  destruct (u && negb (may_x perm)); auto.
   rewrite Hd, Hdd. destruct (lookup ents last); auto.
   rewrite Hts. reflexivity.
 Qed.
@@ -695,7 +702,7 @@ Proof.
   assert (Hex : forall i, open_existing s i a f = (s, RErr EEXIST)).
   { intros i. unfold open_existing. rewrite Hc, He. reflexivity. }
   unfold k_stat in Hst.
-  destruct (resolve (k_ino s) (p_cwd (k_cur s)) p) as [st| |] eqn:Er; try discriminate.
+  destruct (resolve (k_unpriv s) (k_ino s) (p_cwd (k_cur s)) p) as [st| |] eqn:Er; try discriminate.
   assert (Hne : nonempty p = true).
   { unfold resolve in Er. destruct (nonempty p); auto. discriminate. }
   unfold k_open_inner. rewrite Hok, Hne. cbn [negb orb]. rewrite Er.
@@ -703,9 +710,10 @@ Proof.
   destruct (is_dot last) eqn:Hd; cbn [orb]; auto.
   destruct (is_dotdot last) eqn:Hdd; cbn [orb]; auto.
   destruct (trailing_slash p) eqn:Hts; auto.
-  rewrite (resolve_last _ _ _ _ _ Hne Hr Hd Hdd Hts) in Er.
-  destruct (walk (k_ino s) (start (p_cwd (k_cur s)) p) (rev rinit)) as [st1| |]; try discriminate.
+  rewrite (resolve_last _ _ _ _ _ _ Hne Hr Hd Hdd Hts) in Er.
+  destruct (walk (k_unpriv s) (k_ino s) (start (p_cwd (k_cur s)) p) (rev rinit)) as [st1| |]; try discriminate.
   destruct (nth_error (k_ino s) (top st1)) as [[| perm ents |]|]; try discriminate.
+  destruct (k_unpriv s && negb (may_x perm)); try discriminate.
   destruct (lookup ents last); try discriminate. auto.
 Qed.
 
@@ -744,7 +752,8 @@ Proof.
     cbn in Hok. rewrite andb_false_r in Hok. discriminate. }
   destruct (f_creat f && f_excl f); try discriminate.
   destruct (nth_error (k_ino s) i) as [[perm data| perm ents | data]|] eqn:En; try discriminate.
-  - destruct (f_dir f); try discriminate. rewrite Ht in H.
+  - destruct (f_dir f); try discriminate.
+    destruct (k_unpriv s && _); try discriminate. rewrite Ht in H.
     destruct (install _ _ _) as [s2 fd2] eqn:Ei. inversion H; subst s2 fd2; clear H.
     exists perm.
     refine (proj1 (install_fstat _ _ _ _ _ (IReg perm []) Ei _)).
@@ -766,34 +775,37 @@ Lemma k_open_cases s p a f mode s' fd :
   k_open_inner s p a f mode = (s', RFd fd) ->
   flags_ok a f = true /\
   ((exists i, open_existing s i a f = (s', RFd fd) /\
-              exists st, resolve (k_ino s) (p_cwd (k_cur s)) p = WOk st /\ top st = i) \/
+              exists st, resolve (k_unpriv s) (k_ino s) (p_cwd (k_cur s)) p = WOk st /\ top st = i) \/
    (f_creat f = true /\
-    resolve (k_ino s) (p_cwd (k_cur s)) p = WErr ENOENT /\
+    resolve (k_unpriv s) (k_ino s) (p_cwd (k_cur s)) p = WErr ENOENT /\
     k_fstat s' fd = (s', RStat KReg 0 (mask mode (p_umask (k_cur s)))))).
 Proof.
   unfold k_open_inner. destruct (flags_ok a f) eqn:Hok; [|discriminate].
   destruct (nonempty p) eqn:Hne; [|discriminate]. cbn [negb orb].
   intros H. split; auto.
-  assert (Hwhole : match resolve (k_ino s) (p_cwd (k_cur s)) p with
+  assert (Hwhole : match resolve (k_unpriv s) (k_ino s) (p_cwd (k_cur s)) p with
                    | WOk st => open_existing s (top st) a f
                    | WErr e => if f_creat f then (s, ROut) else (s, RErr e)
                    | WOut => (s, ROut)
                    end = (s', RFd fd) ->
                    exists i, open_existing s i a f = (s', RFd fd) /\
-                     exists st, resolve (k_ino s) (p_cwd (k_cur s)) p = WOk st /\ top st = i).
-  { destruct (resolve _ _ p) as [st|e|]; try discriminate.
+                     exists st, resolve (k_unpriv s) (k_ino s) (p_cwd (k_cur s)) p = WOk st /\ top st = i).
+  { destruct (resolve _ _ _ p) as [st|e|]; try discriminate.
     - intros; eauto.
     - destruct (f_creat f); discriminate. }
   destruct (rev (comps p)) as [|last rinit] eqn:Hr; [left; auto|].
   destruct (is_dot last) eqn:Hd; cbn [orb] in H; [left; auto|].
   destruct (is_dotdot last) eqn:Hdd; cbn [orb] in H; [left; auto|].
   destruct (trailing_slash p) eqn:Hts; [left; auto|].
-  pose proof (resolve_last (k_ino s) (p_cwd (k_cur s)) _ _ _ Hne Hr Hd Hdd Hts) as Hres.
-  destruct (walk (k_ino s) (start (p_cwd (k_cur s)) p) (rev rinit)) as [st1| |]; try discriminate.
+  pose proof (resolve_last (k_unpriv s) (k_ino s) (p_cwd (k_cur s)) _ _ _ Hne Hr Hd Hdd Hts) as Hres.
+  destruct (walk (k_unpriv s) (k_ino s) (start (p_cwd (k_cur s)) p) (rev rinit)) as [st1| |]; try discriminate.
   destruct (nth_error (k_ino s) (top st1)) as [[| perm ents |]|] eqn:En; try discriminate.
+  destruct (k_unpriv s && negb (may_x perm)); try discriminate.
   destruct (lookup ents last) as [i|].
   - left. exists i. split; auto. eexists; split; [exact Hres|reflexivity].
-  - right. destruct (f_creat f); [|discriminate]. split; auto. split; auto.
+  - right. destruct (f_creat f); [|discriminate]. cbn [andb] in H.
+    destruct (k_unpriv s && negb (may_w perm)); try discriminate.
+    split; auto. split; auto.
     destruct (install _ _ _) as [s2 fd2] eqn:Ei. inversion H; subst s2 fd2; clear H.
     refine (proj1 (install_fstat _ _ _ _ _ (IReg (mask mode (p_umask (k_cur s))) []) Ei _)).
     cbn [o_ino set_ino k_ino]. apply add_entry_new. eapply nth_error_lt; eauto.
